@@ -22,9 +22,9 @@ TIMEOUT = {'quick': 1500, 'thorough': 3 * 3600}
 RULE = ('A case is one proof expression (thunk) of a generated module, run on 8 interpreter stacks (and a second time on two of them). distinct_nontrivial = distinct '
         '(module axioms, expression description, conclusion) with at least one instantiate or generalization.')
 ASSUMPTIONS = ['the memoising stack gets its candidate set from a counting pre-pass over the same module, as ProofExp.serialize does']
-STACKS = ['basic', 'stateful', 'counting', 'serializing', 'pretty', 'memo(ser,count)', 'instopt(stateful)', 'memo(instopt(ser))']
+STACKS = ['basic', 'stateful', 'counting', 'serializing', 'pretty', 'memo(ser,count)', 'instopt(stateful)', 'memo(instopt(ser))', 'memo{}(stateful)', 'memo{some}(ser)']
 FLOORS = {'quick': {'expressions': 1000, **{f'ran:{s}': 1000 for s in STACKS}, 'empty_or_identity_instantiation': 100, 'memoizer_emitted_save_load': 50, 'run_twice': 300,
-                    'static_instantiate_expressions': 100, 'many_axioms_modules': 10}}
+                    'static_instantiate_expressions': 100, 'many_axioms_modules': 10, 'module_pipelines_compared': 50}}
 FLOORS['thorough'] = dict(FLOORS['quick'], expressions=20000)
 
 
@@ -62,6 +62,12 @@ def make(stack, mod, claims, memo_set):
     if stack == 'memo(instopt(ser))':
         s = ser()
         return O.MemoizingInterpreter(O.InstantiationOptimizer(s), set(memo_set)), s
+    if stack == 'memo{}(stateful)':
+        return O.MemoizingInterpreter(S(G, cl), set()), None       # nothing suggested: it may still reuse what the proof itself saved
+    if stack == 'memo{some}(ser)':
+        s = ser()
+        some = set(sorted(memo_set, key=str)[::2])                  # another (smaller) suggestion set than the analysis computed
+        return O.MemoizingInterpreter(s, some), s
     raise ValueError(stack)
 
 
@@ -112,6 +118,22 @@ def shard(ctx):
             memo_set = an.finalize()
         except Exception:
             ctx.count('counting_prepass_failed')
+        # the whole module through the two pipelines of ProofExp.serialize (plain; counting pass + memoising serialiser, which share one
+        # claims list): both succeed or both fail
+        if b.mod.get_claims() and rng.random() < 0.5:
+            outcome = {}
+            for opt in (False, True):
+                try:
+                    mw.serialize(b.mod, ctx.mkscratch(), 'p', opt)
+                    outcome[opt] = 'ok'
+                except AssertionError:
+                    outcome[opt] = 'fail:AssertionError'
+                except Exception as ex:
+                    outcome[opt] = 'fail:' + type(ex).__name__
+            ctx.count('module_pipelines_compared')
+            if (outcome[False] == 'ok') != (outcome[True] == 'ok'):
+                ctx.violation('serialize_pipelines_differ:' + outcome[False].split(':')[0] + '/' + outcome[True], 'ProofExp.serialize succeeds with one optimise setting and fails with the other',
+                              {'module': b.desc[:8], 'outcomes': {'optimize=False': outcome[False], 'optimize=True': outcome[True]}})
         for th, d in b.pool[:6]:
             advertised = tb.norm_py(tb.of_repo(th.conc))
             ctx.count('expressions')
